@@ -543,6 +543,8 @@ Verdict(case, ob) ==
 \*   function-like-name-not-invoked   (no conditionals) cppcheck's output keeps NAME ( of a function-like macro that the spec replaces
 \*   object-like-name-not-replaced    (no conditionals) cppcheck's output keeps the name of an object-like macro that the spec replaces
 \*   if-mixes-equality-and-relational an #if / #elif expression uses == or != together with < > <= >=
+\*   if-unary-plus     (with conditionals) an #if / #elif expression or an object-like macro body has a unary +
+\*   unbalanced-parentheses-in-output (no conditionals) the expected output has not as many ( as )
 Class(case, ob) ==
   LET full == ExpectedFull(case)
       allLines == FoldLeft(LAMBDA a, f : a \o f.lines, <<>>, case.files)
@@ -556,12 +558,20 @@ Class(case, ob) ==
       eqRel == \E i \in DOMAIN allLines : allLines[i].k \in {"if", "elif"}
                   /\ (\E j \in DOMAIN allLines[i].toks : allLines[i].toks[j] \in {"==", "!="})
                   /\ (\E j \in DOMAIN allLines[i].toks : allLines[i].toks[j] \in {"<", ">", "<=", ">="})
+      UnaryPlus(ts) == \E j \in DOMAIN ts : ts[j] = "+" /\ (j = 1 \/ ts[j - 1] \in (Puncts \ {")"}))
+      unaryPlus == \E i \in DOMAIN allLines : IF allLines[i].k \in {"if", "elif"} THEN UnaryPlus(allLines[i].toks)
+                                               ELSE IF allLines[i].k = "define" THEN (~allLines[i].fun) /\ UnaryPlus(allLines[i].body)
+                                               ELSE FALSE
+      NumOf(x) == Cardinality({j \in DOMAIN full.out : full.out[j].s = x /\ full.out[j].k = "p"})
+      unbalanced == NumOf("(") # NumOf(")")
   IN IF ~ob.cppcheck.ok /\ ob.cppcheck.kind # "" THEN "error:" \o ob.cppcheck.kind
      ELSE IF hashInText THEN "hash-in-text"
      ELSE IF ~hasCond /\ painted THEN "painted-name-replaced"
      ELSE IF ~hasCond /\ notInvoked THEN "function-like-name-not-invoked"
      ELSE IF ~hasCond /\ notReplaced THEN "object-like-name-not-replaced"
+     ELSE IF ~hasCond /\ unbalanced THEN "unbalanced-parentheses-in-output"
      ELSE IF eqRel THEN "if-mixes-equality-and-relational"
+     ELSE IF hasCond /\ unaryPlus THEN "if-unary-plus"
      ELSE "other"
 
 \* a case is non-trivial if preprocessing changes it: some macro is replaced, a group skipped, or a file included
